@@ -70,7 +70,7 @@ def theorem_status(prop, build_res):
                     if psrc[:lm.start()].count('\n') + 1 <= pl:
                         lem = lm.group(2)
                 if lem:
-                    um = re.search(r'(Theorem|Lemma|Corollary)\s+(\w+)[^.]*?(?:\.|:)(?:(?!Qed).)*?exact\s+\(?@?' + re.escape(lem) + r'\b', src, re.S)
+                    um = re.search(r'(Theorem|Lemma|Corollary)\s+(\w+)[^.]*?(?:\.|:)(?:(?!Qed).)*?exact\s+\(?@?(?:[\w.]+\.)?' + re.escape(lem) + r'\b', src, re.S)
                     failing = (um.group(2) if um else None) or ('%s (lemma %s in %s)' % (prop, lem, pf))
                     out = 'lemma %s in %s no longer checks | ' % (lem, pf) + out
                     break
